@@ -31,6 +31,7 @@ def Chain3 (a b c : Arr R) (xa xb1 xb2 xc : List Nat) : Prop :=
     ∧ ObsEq Kb3 (K3.conjF true true)
     ∧ Kb3.ndim = K3.ndim
     ∧ K3.oddpos.Perm ((a.oddpos ++ b.oddpos) ++ c.oddpos)
+    ∧ K3.validB = true ∧ K3.fermi = true ∧ Kb3.validB = true ∧ Kb3.fermi = true
     ∧ (∃ r, Kb3.tensordotF K3 (allAxes K3.ndim) .blockwise = .ok r
         ∧ r.ndim = 0 ∧ r.oddpos = [] ∧ r.elem [] [] = normSq K3)
     ∧ (∃ r, K3.tensordotF Kb3 (allAxes K3.ndim) .blockwise = .ok r
@@ -86,7 +87,8 @@ theorem network_norm_chain3 (a b c : Arr R) (xa xb1 xb2 xc : List Nat)
   obtain ⟨r, r', hnd3, e1, n1, o1, v1, e2, n2, o2, v2⟩ :=
     norm_of_obs hK3v hK3f hKb3v hKb3f hobs2' hk3 hs3 hdl3
   exact ⟨K, Kb2, K3, Kb3', eK, eKb2, eK3, econg.trans eKb3', hobs1, hobs2', hnd3,
-    hperm3.trans (List.Perm.append_right _ hperm), ⟨r, e1, n1, o1, v1⟩, ⟨r', e2, n2, o2, v2⟩⟩
+    hperm3.trans (List.Perm.append_right _ hperm), hK3v, hK3f, hKb3v, hKb3f, ⟨r, e1, n1, o1, v1⟩,
+    ⟨r', e2, n2, o2, v2⟩⟩
 
 end chain
 
